@@ -21,7 +21,7 @@ if [ -f "$seed/build_and_run.sh" ]; then
 fi
 # the checks are pointed at the changed scratch copy (MASA_REPO), which is /repo's tree + the patch; /repo itself stays untouched
 for c in "$@"; do
-  out=$(cd /verif && MASA_REPO="$work/chg" ./check "$c" --tier quick 2>&1); rc=$?
+  out=$(cd /verif && MASA_REPO="$work/chg" VERIF_EVIDENCE_DIR="$work/evidence" VERIF_REPLAY_DIR="$work/replays" ./check "$c" --tier quick 2>&1); rc=$?
   echo "check $c rc=$rc : $(echo "$out" | grep -c '^VIOLATION') violation line(s); $(echo "$out" | tail -1 | cut -c1-200)"
   echo "$out" | grep -A1 '^VIOLATION' | head -6 | cut -c1-300
   echo "$out" | grep '^INFRASTRUCTURE\|^UNDECIDED\|^INCONCLUSIVE' | head -4 | cut -c1-300
